@@ -140,7 +140,7 @@ func (c16) Gen(rs uint64, tier string, race bool) interface{} {
 		c.Seqs = append(c.Seqs, s)
 		c.Verbatim = append(c.Verbatim, vstart)
 	}
-	if c.Translate && r.Chance(0.25) {
+	if r.Chance(0.25) {
 		c.BadAt = r.Intn(ns + 1)
 		switch r.Intn(4) {
 		case 0:
